@@ -46,18 +46,25 @@ def run(rep, tier):
 def earcut_layout(rep, F):
     rep.rule("R10.1", "ear-cut: writer pushes x then y per vertex; hole index = vertices.len()/2 before writing the hole; earcut called with dims 2; reader decodes (v[2i], v[2i+1])")
     try:
-        w = F.one(r"^%sflat_line_string_coords_2$" % EC, crates=("geo",))
-        ps = [p for p in opaque(F, loop_bound=1).run(w) if p.kind == "ret"]
-        okk = False
-        for p in ps:
-            pushes = [bare(c[2][1]) for c in calls_of(p) if c[1].endswith("Vec::<T, A>::push")]
-            if pushes:
-                okk = len(pushes) == 2 and pushes[0].endswith(".x") and pushes[1].endswith(".y") and pushes[0][:-2] == pushes[1][:-2]
-                if not okk:
-                    rep.bad("R10.1", "writer", "a vertex is written as %s, expected its x then its y" % pushes, where=w.loc())
-                    break
-        if okk:
+        # writer: a polygon with an exterior of 2 coordinates and holes of 2 and 1 coordinates (exact unrolling, helpers inlined)
+        g = F.one(r"^%spolygon_to_earcutr_input$" % EC, crates=("geo",))
+        GTY = "geo_types::geometry::"
+
+        def ring(name, n):
+            return ("adt", GTY + "line_string::LineString", "LineString",
+                    (("call", "vec!", (("array", tuple(("field", ("field", ("deref", ("arg", 1)), name), "c%d" % k) for k in range(n))),)),))
+        pg = ("&", ("adt", GTY + "polygon::Polygon", "Polygon", (ring("ext", 2), ("call", "vec!", (("array", (ring("h0", 2), ring("h1", 1))),)))))
+        exw = Symex(F, inline_crates=("geo", "geo_types"), no_inline=[r"coords_count$"], loop_bound=12, concrete_iters=True)
+        ps = exw.run(g, args=[pg])
+        want = ("EarcutrInput::EarcutrInput(vec!([a1.ext.c0.x, a1.ext.c0.y, a1.ext.c1.x, a1.ext.c1.y, a1.h0.c0.x, a1.h0.c0.y, a1.h0.c1.x, a1.h0.c1.y, a1.h1.c0.x, a1.h1.c0.y]), vec!([2, 4]))")
+        got = sorted({bare(p.ret) if p.kind == "ret" else p.kind for p in ps})
+        fields = [f["name"] for f in F.adts[EC + "EarcutrInput"]["variants"][0]["fields"]] if (EC + "EarcutrInput") in F.adts else []
+        if got == [want] and fields == ["vertices", "interior_indexes"]:
             rep.ok("R10.1", "writer:x-then-y")
+            rep.ok("R10.1", "hole-index:len/2-before-hole")
+        else:
+            rep.bad("R10.1", "writer", "for an exterior of 2 and holes of 2 and 1 coordinates the ear-cut input is %s (fields %s); expected all rings in order, x then y per vertex, and hole "
+                    "start indices [2, 4] (vertex counts before each hole)" % ([x[:260] for x in got][:2], fields), where=g.loc())
         r = F.one(r"^%sIter::<T>::triangle_index_to_coord$" % EC, crates=("geo",))
         ps = [p for p in opaque(F).run(r) if p.kind == "ret"]
         s = bare(ps[0].ret) if ps else ""
@@ -65,31 +72,6 @@ def earcut_layout(rep, F):
             rep.ok("R10.1", "reader:(v[2i],v[2i+1])")
         else:
             rep.bad("R10.1", "reader", "vertex i is decoded as %s, expected (vertices[2*i], vertices[2*i+1])" % s[:140], where=r.loc())
-        g = F.one(r"^%spolygon_to_earcutr_input$" % EC, crates=("geo",))
-        ps = [p for p in opaque(F, loop_bound=1).run(g) if p.kind == "ret"]
-        idx_ok = False
-        bad = None
-        for p in ps:
-            cs = calls_of(p)
-            names = [c[1].rsplit("::", 1)[-1] for c in cs]
-            for i, c in enumerate(cs):
-                if c[1].endswith("Vec::<T, A>::push"):
-                    v = bare(c[2][1])
-                    if re.match(r"^\(len\(.*\) Div 2\)$", v):
-                        # the matching hole must be written after the index was taken
-                        later = names[i + 1:]
-                        if "flat_line_string_coords_2" in later:
-                            idx_ok = True
-                        else:
-                            bad = "hole index taken after the hole was written"
-                    else:
-                        bad = "hole start index is %s, expected vertices.len() / 2" % v[:80]
-            if names and names.count("flat_line_string_coords_2") >= 1 and "exterior" not in bare(("call", [c for c in cs if c[1].endswith("flat_line_string_coords_2")][0][1], [c for c in cs if c[1].endswith("flat_line_string_coords_2")][0][2])):
-                bad = "the exterior is not flattened first"
-        if idx_ok and not bad:
-            rep.ok("R10.1", "hole-index:len/2-before-hole")
-        else:
-            rep.bad("R10.1", "hole-index", bad or "no hole index push found", where=g.loc())
         # dims argument
         dims = None
         for fn in F.lib_fns(("geo",)):
